@@ -2,7 +2,8 @@
 
 CONF = {
     'judge': 'CDI.Judge05.judge05',
-    'trusted': ['the text layer bytes <-> document tree (yaml.v2 scanner inside sigs.k8s.io/yaml, yaml.v3 emitter, encoding/json scanner) is '
+    'trusted': ['tools/gen_consts.py (regex translator): hook stages, device node types, permission characters, closID rule, annotation size / name-length limits are regenerated from the source on every run (gen/ConstGen.v), proved equal to the model\'s and WF\'s constants (C05_constants_tie) and probed value by value by the harness (coq/gen/consts.json)',
+                'the text layer bytes <-> document tree (yaml.v2 scanner inside sigs.k8s.io/yaml, yaml.v3 emitter, encoding/json scanner) is '
                 'third-party code and is not modelled: it is exercised on every case (real files are written and read), the theorems start at the '
                 'document tree `doc`',
                 'harness: Spec/document generators, the Go value -> Gallina `doc` printer (re-decodes the bytes it wrote; members sorted by name; '
